@@ -10,6 +10,7 @@ guard.  No solver is involved; feasibility is `pc != FALSE` on canonical BDDs.
 Local callees are analysed by cloning (context sensitivity); selected functions
 are *primitives* with validated summaries; library callees have explicit models.
 """
+import os
 import bv
 from bv import M as _M0  # noqa
 
@@ -228,7 +229,7 @@ class Interp:
         self.opaque_stores = []
         self.debug_nonint = None
         self._st = None
-        self.merging = True
+        self.merging = os.environ.get("H8_NO_MERGE") != "1"   # thorough tier: cross-check with pure trace partitioning
         self.no_merge_ranks = bv.decode_ranks
         self.outcomes = []
         self.mux_ranks_below = 100   # selector variables with rank < this are muxed, others split
